@@ -30,6 +30,7 @@ TOK = ["C", "CC", "CCC", "CCCC", "CCCCC"]
 def configs(tier):
     absv = ["60", "150"]
     pct = ["10", "25", "50", "75", "90", "100", "110", "-5"]
+    sci = [("a", "1.5e+2"), ("p", "2.5e+1"), ("p", "5e-1"), ("a", "6e-1"), ("p", "1e-3")]  # signed exponents
     if tier == "thorough":
         absv += ["1e3", "0.5"]
         pct += ["33.3", "12.5", "2.5"]
@@ -41,6 +42,18 @@ def configs(tier):
         last = opts + [("u", None)]
         for combo in itertools.product(*([opts] * (n - 1) + [last])):
             yield list(combo)
+        if n <= 3:
+            # one component written in exponent notation with a signed exponent, the others from the core alphabet
+            core = [("a", "60"), ("p", "10"), ("p", "50"), ("p", "99.5")]
+            for pos in range(n):
+                for sc in sci:
+                    for combo in itertools.product(*([core] * (n - 1))):
+                        c = list(combo)
+                        c.insert(pos, sc)
+                        yield c
+                    if pos == n - 1 and n > 1:
+                        for combo in itertools.product(*([core + sci[:2]] * (n - 1))):
+                            yield list(combo) + [("u", None)]
 
 
 def solve(cfg, ext):
@@ -157,7 +170,10 @@ def eval_case(kind, data):
                     kinds = [k for k, v in cfg]
                     why = ref[1]
                     if ext is not None and kinds.count("a") >= 1 and kinds.count("p") >= 1:
-                        why = "absolute-and-percent-not-cross-checked-against-external-total"
+                        from fractions import Fraction as _F
+
+                        ps = sum(_F(v) for k, v in cfg if k == "p")
+                        why = "absolute-and-percent-not-cross-checked-against-external-total" + ("|one-absolute" if kinds.count("a") == 1 else "|several-absolute")
                     viol(res, f"C12|accepted-contradiction|{why}|generable={gable}", f"System({text!r}, {ext}) is accepted (generable={gable}) although the specification is contradictory: {ref[1]}", {"text": text, "ext": ext})
                 continue
             if st != "ok":
